@@ -5,6 +5,7 @@ import InovesaModel.Model.FokkerPlanck
 import InovesaModel.Model.RFDrift
 import InovesaModel.Model.PhaseSpace
 import InovesaModel.Model.ElectricField
+import InovesaModel.Model.Options
 open Inovesa
 namespace Driver
 
@@ -19,6 +20,8 @@ structure Case where
   aux : Array Float32 := #[]
   aux2 : Array Float32 := #[]
   words : Array String := #[]
+  argv : List String := []
+  cfg : List String := []
 
 def floats (ts : List String) : Array Float32 :=
   (ts.map fun s => (f32ofHex? s).getD (Float32.ofBits 0x7fc00000)).toArray
@@ -299,6 +302,45 @@ def runEF (c : Case) : List String :=
       (s', cur, out ++ l0 ++ l1 ++ l2)) (freeze (mk false) EFState.fresh, 0, [])
   ["case " ++ c.id, valsLine] ++ lines
 
+/-! ### program options -/
+
+def tyName : Gen.OptTy → String
+  | .flag => "flag" | .f32 => "f32" | .f64 => "f64" | .u32 => "u32" | .i32 => "i32" | .i64 => "i64"
+  | .bool => "bool" | .u8 => "u8" | .str => "str" | .vecf32 => "vecf32"
+
+def varsLine (vars : Vars) : String :=
+  let tyOf := fun (v : String) => match Gen.optionDecls.find? (·.var = v) with
+    | some o => tyName o.ty
+    | none => "str"
+  vars.foldl (fun s kv => s ++ " " ++ kv.1 ++ ":" ++ tyOf kv.1 ++ "=" ++ ",".intercalate kv.2) "vars"
+
+def fsIsZero (vars : Vars) : Bool :=
+  -- `std::fpclassify(f_s) == FP_ZERO` on the token level: all digits of the mantissa are 0
+  match varGet vars "f_s" with
+  | some [t] => ((t.splitOn "e").headD "").all (fun ch => ch = '0' || ch = '.' || ch = '-' || ch = '+' || ch = 'f' || ch = ':')
+  | _ => false
+
+/-- opts <id> [save] ; argv ... ; cfg key=value ... (placeholders @CFG@, @NOFILE@ as in the harness) -/
+def runOpts (c : Case) : List String :=
+  let dosave := c.head.getD 2 "" == "save"
+  let file : String → Option (List String) := fun p => if p == "@CFG@" then some c.cfg else none
+  match parseOptions Gen.optionDecls Gen.cliGroups Gen.cfgGroups Gen.optionAliases c.argv file with
+  | .error _ => ["case " ++ c.id, "txt error"]
+  | .norun => ["case " ++ c.id, "txt norun"]
+  | .run vm vars =>
+    let l0 := ["case " ++ c.id, "txt run", varsLine vars]
+    if !dosave then l0 else
+      let saved := saveLines Gen.optionDecls Gen.saveSkip Gen.saveSpecials Gen.saveTypes vm (fsIsZero vars)
+      let savedLine := saved.foldl (fun s kv => s ++ " " ++ kv.1 ++ "=" ++ kv.2) "txt saved"
+      -- the `config` key is written as a comment when saveCommentsConfig
+      let lines := (saved.filter (fun kv => !(Gen.saveCommentsConfig && kv.1 == "config"))).map
+        (fun kv => kv.1 ++ "=" ++ kv.2)
+      let file2 : String → Option (List String) := fun p => if p == "@SAVED@" then some lines else none
+      match parseOptions Gen.optionDecls Gen.cliGroups Gen.cfgGroups Gen.optionAliases ["--config", "@SAVED@"] file2 with
+      | .error _ => l0 ++ [savedLine, "txt reerror"]
+      | .norun => l0 ++ [savedLine, "txt renorun"]
+      | .run _ vars2 => l0 ++ [savedLine, "txt rerun", varsLine vars2]
+
 def dispatch (c : Case) : List String :=
   match c.kind with
   | "kick" => runKick c
@@ -308,6 +350,7 @@ def dispatch (c : Case) : List String :=
   | "rf" => runRF c
   | "ps" => runPS c
   | "ef" => runEF c
+  | "opts" => runOpts c
   | "drift" => runDrift c
   | k => ["case " ++ c.id, "error unknown-kind " ++ k]
 
